@@ -32,6 +32,21 @@ def case(draw):
     return spec
 
 
+@st.composite
+def many_case(draw):
+    """A perfect detector on a clip with many events (1 .. 130): every match scores exactly 1, so does the clip and the whole run.
+    Means over dozens of equal numbers are where a re-derived averaging formula starts to be off by an ulp."""
+    n = draw(st.one_of(st.integers(1, 130), st.sampled_from([20, 33, 58, 72, 88, 93, 95, 97, 110, 115, 128])))
+    third = draw(st.booleans())  # or every third event missed (scores 0 mixed in)
+    anns, preds = [], []
+    for i in range(n):
+        g = {"type": "TimeInterval", "coordinates": [0.5 * i, 0.5 * i + 0.25]} if i % 2 else {"type": "BoundingBox", "coordinates": [0.5 * i, 1000.0, 0.5 * i + 0.25, 2000.0]}
+        anns.append({"geometry": g, "tags": [i % 2]})
+        if not (third and i % 3 == 2):
+            preds.append({"geometry": g, "tags": [[i % 2, 1.0]], "conf": 1.0})
+    return {"vocab": [["species", "a"], ["species", "b"]], "clips": [{"side": "both", "anns": anns, "preds": preds, "separate_clip": None}], "order": [0]}
+
+
 def check(spec, ctx):
     from soundevent.evaluation import compute_affinity, sound_event_detection
 
@@ -124,7 +139,14 @@ def check(spec, ctx):
         ann_objs = {index["ann"][str(x.uuid)][1]: x for x in ce.annotations.sound_events}
         pred_objs = {index["pred"][str(x.uuid)][1]: x for x in ce.predictions.sound_events}
         mat = tuple(tuple(evalgen.ref_affinity(c["preds"][p]["geometry"], c["anns"][a]["geometry"]) for a in ai) for p in pi)
-        best = brute_best_dp(mat, len(pi), len(ai))
+        if len(pi) > 8 or len(ai) > 8:
+            # the subset DP is exponential; on the large clips every prediction overlaps exactly one annotation, so the optimum is
+            # simply the sum of the row maxima
+            best = sum(max(row) if row else 0.0 for row in mat)
+            if any(sum(1 for x in row if x > 0) > 1 for row in mat) or any(sum(1 for row in mat if row[a] > 0) > 1 for a in range(len(ai))):
+                best = total_aff  # not a one-to-one overlap pattern: optimality not asserted here
+        else:
+            best = brute_best_dp(mat, len(pi), len(ai))
         if abs(best - total_aff) > 1e-9:
             ctx.fail(f"clip {ci}: total affinity of the reported pairs {total_aff} is not the optimum {best}", spec, total_aff, best, kind="optimal")
         exp_clip = float(np.mean([s or 0.0 for s in mscores])) if mscores else 0.0
@@ -144,5 +166,6 @@ def check(spec, ctx):
 
 
 SUBS = [
+    Sub("many_events", check, strategy=many_case, quick=20, thorough=400, min_nontrivial=0.0),
     Sub("detection_reference", check, strategy=case, quick=2000, thorough=60000, min_nontrivial=0.05),
 ]
